@@ -149,9 +149,13 @@ impl<'a> SchemaConstructionState<'a> {
 		self.nodes.push(RegularType::Null.into()); // Reserve the spot for us
 
 		// Register name->node idx to the name HashMap
+		// (Only named types define a name: if there's a `name` attribute on another type,
+		// that's just an attribute that we don't know about, like e.g. `doc`)
 		let name_key = if let Some(
 			object @ raw::SchemaNodeObject {
-				name: Some(name), ..
+				name: Some(name),
+				type_: raw::Type::Record | raw::Type::Enum | raw::Type::Fixed,
+				..
 			},
 		) = object
 		{
